@@ -380,7 +380,19 @@ func TestVerif_C21(t *testing.T) {
 	vh.Check(t, "live", 500, 2000, func(rt *rapid.T) {
 		c21Case(t, rt, recLive, []string{verifRModeMemShared, verifRModeMemViews, verifRModeJournal}, false)
 	})
-	vh.Check(t, "crash", 32, 120, func(rt *rapid.T) {
+	vh.Check(t, "crash", 32, 80, func(rt *rapid.T) {
 		c21Case(t, rt, recCrash, []string{verifRModeJournal}, true)
 	})
+}
+
+const c21RuleConc = "goroutine variant (binary built with -race): G=2-4 goroutines over one memory view / NBS store / journaling store run plans dominated by CommitWithWorkingSet against UpdateWorkingSet / SetHead / Commit, with a quarter of the plan slots being reads of the whole dataset map from one store root (Root + DatasetsByRootHash); the history is checked with porcupine, so every (head, working set) pair any reader saw must be a state of one sequential order of the accepted calls. Non-trivial: >= 1 rejected call and overlapping accepted writes of different goroutines."
+
+// TestVerif_C21_goroutines: readers racing combined updates (thorough tier, -race).
+func TestVerif_C21_goroutines(t *testing.T) {
+	rec := vh.NewRecorder("C21", "goroutines", "exploration", c21RuleConc,
+		"goroutine variant: a history porcupine cannot decide within 30 s is counted as undecided, not as a failure")
+	defer rec.Write(t)
+	cfg := verifCConfig{part: "goroutines", readPc: 25,
+		kinds: verifRWeighted(map[string]int{verifRCommitWS: 40, verifRUpdateWS: 16, verifRSetHead: 10, verifRCommit: 12, verifRFF: 4, verifRDelete: 3, verifRRefresh: 8}, verifRKindOrder)}
+	vh.Check(t, "goroutines", 40, 300, func(rt *rapid.T) { verifCCase(t, rt, rec, cfg) })
 }
